@@ -328,7 +328,7 @@ class Ctx:
             json.dump(ev, f, indent=1, default=str)
 
 
-def main(run, pid):
+def main(run, pid, uses_gen=True):
     import argparse
     ap = argparse.ArgumentParser()
     ap.add_argument("--tier", default=os.environ.get("VERIF_TIER", "quick"))
@@ -352,8 +352,9 @@ def main(run, pid):
     # ordinary runs share the lock.
     os.makedirs(CACHE, exist_ok=True)
     genlock = open(os.path.join(CACHE, "genmode.lock"), "w")
-    foreign = os.path.realpath(REPO) != "/repo"
-    fcntl.flock(genlock, fcntl.LOCK_EX if foreign else fcntl.LOCK_SH)
+    foreign = uses_gen and os.path.realpath(REPO) != "/repo"
+    if uses_gen:
+        fcntl.flock(genlock, fcntl.LOCK_EX if foreign else fcntl.LOCK_SH)
     try:
         try:
             run(ctx)
